@@ -173,6 +173,8 @@ impl File {
             })
             .collect::<Vec<_>>();
 
+        let signal_names: HashSet<String> = signals.iter().map(|s| s.name.clone()).collect();
+
         let mut test_signal_names: HashSet<String> = HashSet::new();
         let mut bidirectional: HashSet<String> = HashSet::new();
         for test_case in &test_cases {
@@ -181,16 +183,20 @@ impl File {
                 .map(|(signals, _)| signals)
                 .map_err(|_| DigFileErrorKind::EmptyTest)?
             {
+                // `<name>_out` denotes the output side of the input `<name>`, unless
+                // the circuit has a signal which is itself called `<name>_out`
                 if let Some(stripped_name) = name.strip_suffix("_out") {
-                    let stripped_name = stripped_name.to_string();
-                    bidirectional.insert(stripped_name);
-                } else {
-                    test_signal_names.insert(name);
+                    let is_input = signals.iter().any(|sig| {
+                        sig.name == stripped_name && matches!(sig.typ, SignalType::Input { .. })
+                    });
+                    if is_input && !signal_names.contains(&name) {
+                        bidirectional.insert(stripped_name.to_string());
+                        continue;
+                    }
                 }
+                test_signal_names.insert(name);
             }
         }
-
-        let signal_names: HashSet<String> = signals.iter().map(|s| s.name.clone()).collect();
 
         if !test_signal_names.is_subset(&signal_names) {
             let missing = test_signal_names
